@@ -219,6 +219,16 @@ async fn run_actor(i: usize, b: Value, h: i64, t: i64) -> anyhow::Result<Value> 
                 let inst = mk_instance(s["s"].as_str().unwrap(), s["a"].as_str().unwrap(), &json!({"cl": s["client"]}), 0);
                 addr.send(NamingCmd::Delete(inst)).await??;
             }
+            "raft_echo_update" => {
+                // an applied NamingRaftReq::UpdateInstance about a persistent instance (written by this or another node)
+                let inst = mk_instance(s["s"].as_str().unwrap(), s["a"].as_str().unwrap(), &s["new"], 0);
+                let param: rnacos::naming::model::actor_model::InstanceRegisterParam = (&inst).into();
+                addr.send(rnacos::naming::model::actor_model::NamingRaftReq::UpdateInstance { param }).await??;
+            }
+            "raft_echo_remove" => {
+                let inst = mk_instance(s["s"].as_str().unwrap(), s["a"].as_str().unwrap(), &json!({}), 0);
+                addr.send(rnacos::naming::model::actor_model::NamingRaftReq::RemoveInstance(inst.get_instance_key())).await??;
+            }
             "disconnect" => {
                 addr.send(NamingCmd::RemoveClient(Arc::new(s["client"].as_str().unwrap().to_string()))).await??;
             }
